@@ -1,4 +1,4 @@
-use vlib::{core::*, pdusim};
+use vlib::core::*;
 
 fn main() {
     let args = parse_args();
